@@ -119,6 +119,24 @@ def session_part(ctx, only_actions: tuple | None = None) -> dict:
     return {"states": r.distinct, "transitions": r.generated, "replayed": len(reps), "steps": sum(x["steps"] for x in reps)}
 
 
+def senders_part(ctx) -> None:
+    """Several senders into one real Listener, incl. long histories: each (sender, idx) is delivered exactly once and acknowledged
+    to its sender (spec/Acked.tla, section "several senders"). Also used by C02: a command delivered twice is dispatched twice."""
+    from ..drive import acked
+    scratch = ctx.scratch
+    cf2, seqs = p3.generate(ctx, "Acked", {"N": "<- MC_N", "R": "2", "Faults": "0", "Retries": "<- MC_Retries", "MaxAges": "0"},
+                            modules=["Acked"], tag="senders", op="GenerateSenders", defs=DEFS, env={"PASS": "senders"})
+    res2 = acked.multi_sender(seqs)
+    rf2 = scratch / "sender_results.json"
+    rf2.write_text(json.dumps(res2))
+    bad2 = p3.judge(ctx, "Acked", {"N": "<- MC_N", "R": "2", "Faults": "0", "Retries": "<- MC_Retries", "MaxAges": "0"}, cf2, rf2,
+                    modules=["Acked"], tag="sendersj", op="JudgeSenders", defs=DEFS, env={"PASS": "sendersj"})
+    for i, names in sorted(bad2.items()):
+        ctx.violate("senders:" + "+".join(sorted(names)), f"one Listener, deliveries {seqs[i-1]}: {sorted(names)}; observed {res2[i-1]}",
+                    {"deliveries": seqs[i - 1], "observed": res2[i - 1]}, clause="+".join(sorted(names)))
+    ctx.coverage["multi_sender_sequences"] = len(seqs)
+
+
 def run(ctx):
     logging.disable(logging.CRITICAL)
     scratch = ctx.scratch
@@ -190,18 +208,7 @@ def run(ctx):
     for i, names in sorted(bad.items()):
         ctx.violate("frames:" + "+".join(sorted(names)), f"Listener._recv_one on frame shape {res[i-1]['shape']} "
                     f"(seen={res[i-1]['seen']}): {sorted(names)}", {"case": res[i - 1]}, clause="+".join(sorted(names)))
-    # ---- several senders into one listener (idx counters collide across senders)
-    cf2, seqs = p3.generate(ctx, "Acked", {"N": "<- MC_N", "R": "2", "Faults": "0", "Retries": "<- MC_Retries", "MaxAges": "0"},
-                            modules=["Acked"], tag="senders", op="GenerateSenders", defs=DEFS, env={"PASS": "senders"})
-    res2 = acked.multi_sender(seqs)
-    rf2 = scratch / "sender_results.json"
-    rf2.write_text(json.dumps(res2))
-    bad2 = p3.judge(ctx, "Acked", {"N": "<- MC_N", "R": "2", "Faults": "0", "Retries": "<- MC_Retries", "MaxAges": "0"}, cf2, rf2,
-                    modules=["Acked"], tag="sendersj", op="JudgeSenders", defs=DEFS, env={"PASS": "sendersj"})
-    for i, names in sorted(bad2.items()):
-        ctx.violate("senders:" + "+".join(sorted(names)), f"one Listener, deliveries {seqs[i-1]}: {sorted(names)}; observed {res2[i-1]}",
-                    {"deliveries": seqs[i - 1], "observed": res2[i - 1]}, clause="+".join(sorted(names)))
-    ctx.coverage["multi_sender_sequences"] = len(seqs)
+    senders_part(ctx)
     sess = session_part(ctx)
     states += sess["states"]
     trans += sess["transitions"]
